@@ -113,6 +113,7 @@ func (c07) Plan(tier string, seed int64) []mon.Workload {
 		{Name: "number-neighbours", N: int64(len(c07NbLits) * len(c07NbForms)), Exhaustive: true},
 		{Name: "floats", N: fl},
 		{Name: "keywords", N: int64(len(c07Keywords)), Exhaustive: true},
+		{Name: "literal-contexts", N: int64(len(c07CtxLits) * len(c07Ctxs)), Exhaustive: true},
 	}
 }
 
@@ -488,6 +489,8 @@ func (k c07) Run(c *mon.Ctx, workload string, i int64) {
 	switch workload {
 	case "two-literals":
 		k.twoLiterals(c, i)
+	case "literal-contexts":
+		k.literalContexts(c, i)
 	case "number-neighbours":
 		k.neighbours(c, i)
 	case "strings-exhaustive", "strings-random", "code-points":
@@ -672,5 +675,79 @@ func c07Number(c *mon.Ctx, sp string) {
 	c.Cell("number_cells", "float")
 	if c.WantSample() && len(sp) < 30 {
 		c.Sample(map[string]any{"spelling": sp, "parsed": node.Dump()})
+	}
+}
+
+// literal-contexts (exhaustive): a literal denotes the same value wherever it
+// stands and whatever the lexer has read before it. Every spelling of the
+// table is parsed alone (`x = L`, node N) and in each context; the expected
+// tree of the context is the tree of the same text with a plain identifier
+// in place of L, with N substituted for that identifier.
+var c07CtxLits = []string{"true", "TRUE", "True", "tRuE", "false", "FALSE", "False", "nil", "NIL", "Nil", "null", "NULL", "Null", "nUlL",
+	"0", "7", "9223372036854775807", "0x1f", "0X1F", "1.5", "1e3", "2.5E-3", "0.0",
+	"\"s\"", "'s'", "\"a\\tb\"", "'q\\'q'", "\"\"\"raw \\n\"\"\"", "'''r\n2'''", "\"é世\"", "\"\"", "`bq`", "`b q`", "\"true\"", "'nil'"}
+var c07Ctxs = []string{
+	"x = @", "y = a.`b c`\nx = @", "y = a.`b c` == @", "x = [a.`q`, @]", "x = a.b\ny = @", "x = a[0]\ny = @", "a.b.`c d`.e = 1\nx = @", "x = a.`b`\n\n# c\n\ny = @",
+	"f(a = @)", "f(@, b = @)", "f(a.`k`, @)", "x = {\"k\": @}", "x = {\"k\": [@, {\"j\": @}]}", "if @ { y = @ }", "if a { } elif @ { } else { y = @ }",
+	"for i = @; i < @; i = i + @ { y = @ }", "for e in [@] { y = @ }", "x = a[1:2]\ny = @", "x = a[@]", "a[@] = @",
+	"# comment true nil \"x\n x = @", "x = 1 # c `\ny = @ # tail '", "x = \"\"\"raw\nmulti\"\"\"\ny = @", "x = 'it\\'s'\ny = @", "x = \"esc\\\"\"\ny = @",
+	"x = 0x1F\ny = @", "x = 1e5\ny = @", "x = 2.5\ny = @", "x = @\r\ny = @\r\n", "x = (@)", "x = !@", "x = @ in [@]", "x = @ && @ || @", "x = @ == @", "x = a + @ * @",
+	"`odd name` = @", "x = `odd name` + @", "x = a.`m`\ny = `n`\nz = @", "x = a.b.c\nz = @", "x = f(a.`m`)\nz = @", "x = a.`m`[0]\nz = @", "x = a.`m` ; z = @",
+	"x = true\ny = @", "x = nil\ny = @", "x = NULL\ny = [@, @]", "if a.`m` { z = @ }", "for e in a.`m` { z = @ }", "x = a.`m` + 1\nz = @", "x = [a.`m`]\nz = [@]",
+}
+
+const c07Sentinel = "zzq"
+
+func (k c07) literalContexts(c *mon.Ctx, i int64) {
+	lit := c07CtxLits[int(i)%len(c07CtxLits)]
+	ctx := c07Ctxs[int(i)/len(c07CtxLits)]
+	src := strings.ReplaceAll(ctx, "@", lit)
+	cs := map[string]any{"literal": lit, "context": ctx, "source": src}
+	alone, o0, _ := c07Parse(lit)
+	if alone == nil {
+		c.Violate("wellformed-literal-rejected", fmt.Sprintf("x = %s was rejected: %v %v", lit, o0.Err, o0.Panic), cs)
+		return
+	}
+	os := drive.Parse("c07.p", strings.ReplaceAll(ctx, "@", c07Sentinel))
+	if os.Err != nil || os.Panic != nil {
+		c.Count("contexts_rejected_with_an_identifier_in_place", 1)
+		c.Cell("contexts_rejected_with_an_identifier", ctx)
+		return
+	}
+	want, err := gt.FromStmts(os.Stmts)
+	if err != nil {
+		panic(err)
+	}
+	n := 0
+	for _, sl := range gt.ExprSlots(want) {
+		if g := sl.Get(); g != nil && g.K == gt.KIdent && g.S == c07Sentinel {
+			sl.Set(gt.Clone(alone))
+			n++
+		}
+	}
+	if n != strings.Count(ctx, "@") {
+		// a place the slot visitor does not reach: no claim
+		c.Count("contexts_with_unreachable_places", 1)
+		c.Cell("contexts_with_unreachable_places", ctx)
+		return
+	}
+	o := drive.Parse("c07.p", src)
+	c.Eval(1)
+	c.Nontrivial(src)
+	c.Cell("literal_contexts", ctx)
+	switch {
+	case o.Panic != nil || o.Stderr != "":
+		c.Violate("literal-crash", fmt.Sprintf("parsing %q crashed: %v", src, o.Panic), cs)
+	case o.Err != nil:
+		c.Violate("wellformed-literal-rejected", fmt.Sprintf("%s is accepted alone and an identifier is accepted in its place, but %q was rejected: %v", lit, src, o.Err), cs)
+	default:
+		got, err := gt.FromStmts(o.Stmts)
+		if err != nil {
+			c.Violate("literal-wrong-tree", fmt.Sprintf("%q: incomplete tree: %v", src, err), cs)
+			return
+		}
+		if d := gt.DiffStmts(want, got); d != "" {
+			c.Violate("literal-denotes-something-else-in-context", fmt.Sprintf("alone, %s parses to %s; in %q the tree differs from the expected one: %s", lit, alone.Dump(), src, d), cs)
+		}
 	}
 }
